@@ -76,7 +76,13 @@ async def check_state(st, idx, acc, sd):
     # (b) through the tree entry point
     inputs = {str(k): EvaluatedFormatConstraint(v, None if v else f"E{k}") for k, v in b.items()}
     try:
-        r = evaluate_format_constraint_tree(parse_condition_expression_to_tree(expr), inputs)
+        parsed = parse_condition_expression_to_tree(expr)
+        # the SAME tree object is first evaluated under the complementary truth assignment: evaluation must leave nothing behind in the caller's tree
+        try:
+            evaluate_format_constraint_tree(parsed, {str(k): EvaluatedFormatConstraint(not v, f"E{k}" if v else None) for k, v in b.items()})
+        except BaseException:  # pylint:disable=broad-except  # noqa: BLE001 - only the judged evaluation counts
+            pass
+        r = evaluate_format_constraint_tree(parsed, inputs)
         if r.format_constraint_fulfilled != exp_ok or (r.error_message is not None) != exp_msg:
             acc.v(f"evaluate_format_constraint_tree('{expr}') under {b} = ({r.format_constraint_fulfilled}, {r.error_message!r}), "
                   f"expected fulfilled={exp_ok}, message {'present' if exp_msg else 'absent'}", case)
